@@ -129,11 +129,7 @@ func collectDesigns(c *core.Ctx, e *Env) (sel, others []*DesignRef, err error) {
 			}
 		}
 		if f.PerService == 0 && f.PerDesign == 0 {
-			acc2, _, err := pipe.Filter(f.Cases)
-			if err != nil {
-				return nil, nil, err
-			}
-			for i, s := range spec.Pack(acc2, 8, 3, f.Name) {
+			for i, s := range spec.Pack(acc, 8, 3, f.Name) {
 				d, err := write(f.Name, ".x3", i, s)
 				if err != nil {
 					return nil, nil, err
